@@ -95,7 +95,7 @@ def _mc_parallel(ctx, runs, broken, par=4, workers=4):
 
 def run(ctx):
     quick = ctx.tier == 'quick'
-    ctx.samples.append({'constants_queues': open(f'{vtlib.SPEC}/MC_RingQueues_mpmc_pp21.cfg').read(),
+    ctx.samples.append({'constants_queues': open(f'{vtlib.SPEC}/MC_RingQueues_mpmc_pp.cfg').read(),
                         'constants_channel': open(f'{vtlib.SPEC}/MC_RingChannel_q12.cfg').read()})
     if not os.environ.get('VERIF_SKIP_MC'):
         broken = BROKEN[:1] + BROKEN[3:4] if quick else BROKEN
